@@ -8,7 +8,7 @@ From Coq Require Import ZArith List Bool Lia Permutation.
 From Arsenal Require Import Util Budget BudgetProofs VamDev VamBlockList VamDefrag Vam VamInvMeta VamInv VamInvUpd VamInvDev.
 From Arsenal Require Import VamInvStep VamInvStep2 VamInvThm VamProps VamAcct VamAcctStep VamAcctStep2 VamAcctThm VamMap VamMapStep VamMapStep2 VamMapThm.
 From Arsenal Require Import VamDefragInv VamDefragStep VamDefragPass VamDefragThm VamDefragAcct.
-From Arsenal Require Pass PassProofs Defrag DefragProofs SyncMem SyncMemProofs.
+From Arsenal Require Pass PassProofs Defrag DefragProofs DefragGranProofs Gran GranInv GranTlsf VamGran SyncMem SyncMemProofs.
 Import ListNotations.
 Open Scope Z_scope.
 
@@ -203,16 +203,16 @@ Proof.
 Qed.
 
 Lemma pass_loop_MM fuel : forall v run p,
-  VamInv c v -> MM ms0 v [] -> run_idle run -> 0 <= dr_max_bytes run -> 0 <= dr_max_allocs run -> PassProofs.pass_running p -> lists_g1 v run ->
+  VamInv c v -> MM ms0 v [] -> run_idle run -> 0 <= dr_max_bytes run -> 0 <= dr_max_allocs run -> PassProofs.pass_running p -> VamGran.GV v ->
   let '(v', run', r) := pass_loop c fuel v run p in match r with OK _ => MM ms0 v' [] | _ => True end.
 Proof.
   induction fuel as [|f IH]; intros v run p HI HM Hidle Hb Ha Hrun HG; cbn [pass_loop]; [exact I|].
   destruct (nth_z (dr_ctxs run) (dr_progress run)) as [dc|] eqn:En; [|exact HM].
   assert (Hdc : Defrag.c_moves (dc_ctx dc) = []) by (eapply Hidle; eauto).
-  pose proof (VamDefragPass.collect_list_inv c v dc p HI Hdc Hrun (fun l Hl => HG _ _ _ En Hl)) as PS.
+  pose proof (VamDefragPass.collect_list_inv_gv c v dc p HI HG Hdc Hrun) as PS.
   pose proof (collect_list_MM v dc p HI HM) as P.
   destruct (collect_list c v dc p) as (v1 & r). destruct r as [(dc' & p')|code| |]; auto.
-  destruct PS as (S1 & LS1 & GS1 & Elr & MS1 & Hrun').
+  destruct PS as ((S1 & LS1 & GS1 & Elr & MS1 & Hrun') & HG1).
   pose proof (nth_z_some_range _ _ _ En) as Hrg.
   destruct (Defrag.c_moves (dc_ctx dc')) as [|m0 ms1] eqn:Em; [|exact P].
   match goal with |- context [pass_loop c f v1 ?rr p'] => set (run1 := rr) end.
@@ -221,12 +221,6 @@ Proof.
     destruct (Z.eq_dec i (dr_progress run)) as [->|Hne].
     - rewrite nth_z_set_same in Hn1 by exact Hrg. injection Hn1 as <-. exact Em.
     - rewrite nth_z_set_other in Hn1 by congruence. eapply Hidle; eauto. }
-  assert (HG1 : lists_g1 v1 run1).
-  { intros i dc1 l1 Hn1 Hg1. unfold run1 in Hn1. cbn [dr_ctxs] in Hn1. unfold set_nth_ctx in Hn1.
-    destruct (Z.eq_dec i (dr_progress run)) as [->|Hne].
-    - rewrite nth_z_set_same in Hn1 by exact Hrg. injection Hn1 as <-. rewrite Elr in Hg1.
-      eapply (lists_frame_g1 v v1 (dr_ctxs run) LS1 HG); eauto.
-    - rewrite nth_z_set_other in Hn1 by congruence. eapply (lists_frame_g1 v v1 (dr_ctxs run) LS1 HG); eauto. }
   apply IH; auto.
 Qed.
 
@@ -368,13 +362,13 @@ Qed.
 (* ---------------------------------------------------------------- one defragmentation call *)
 
 Lemma dexec_MM v run o :
-  VamInv c v -> MM ms0 v [] -> drun_ok v run -> dop_ok v run o ->
+  VamInv c v -> MM ms0 v [] -> VamGran.GV v -> drun_ok v run -> dop_ok v run o ->
   let '(v', run', r, dr) := dexec c v run o in match r with OK _ | ER _ => MM ms0 v' [] | _ => True end.
 Proof.
-  intros HI HM Hr Hok. destruct o as [flags pool mb ma| |ds|]; cbn [dexec].
+  intros HI HM HV Hr Hok. destruct o as [flags pool mb ma| |ds|]; cbn [dexec].
   - pose proof (defrag_begin_MM v flags pool mb ma HM) as P. destruct (defrag_begin c v flags pool mb ma) as (v1 & r). cbn [fst] in P.
     destruct r as [rn|code| |]; auto.
-  - destruct run as [rn|]; [|exact I]. destruct Hok as (Hidle & HG). destruct Hr as (Hb & Ha & Hr).
+  - destruct run as [rn|]; [|exact I]. pose proof Hok as Hidle. pose proof HV as HG. destruct Hr as (Hb & Ha & Hr).
     pose proof (pass_loop_MM (S (length (dr_ctxs rn))) v rn (Pass.pass_init (dr_max_bytes rn) (dr_max_allocs rn)) HI HM Hidle Hb Ha
                   (PassProofs.pass_init_running _ _ Hb Ha) HG) as P.
     pose proof (defrag_pass_inv c v rn HI (conj Hb (conj Ha Hr)) Hidle HG) as PS.
@@ -398,11 +392,11 @@ Let Hmax := ca_max c Ha.
 Let Hlarge := ca_large c Ha.
 
 Theorem dstep_preservesM v run o f :
-  VamInv c v -> MapInv v [] -> drun_ok v run -> dop_ok v run o ->
+  VamInv c v -> MapInv v [] -> VamGran.GV v -> drun_ok v run -> dop_ok v run o ->
   let '(v', run', r, calls, dr) := dstep c v run o f in
   r <> RPanic -> r <> RStuck -> MapInv v' [] /\ replay (m_mems (v_m v)) calls (m_mems (v_m v')).
 Proof.
-  intros HI HM Hr Hok. unfold dstep.
+  intros HI HM HV Hr Hok. unfold dstep.
   set (ms0 := m_mems (v_m v)).
   set (v0 := set_m v (clear_calls (set_fault (v_m v) f 0))).
   assert (Hsub : forall w m', MapInv w [] -> m_mems m' = m_mems (v_m w) -> MapInv (set_m w m') []).
@@ -413,7 +407,7 @@ Proof.
   { split; [apply Hsub; [exact HM|reflexivity]|]. unfold LogOk, v0, ms0. cbn. constructor. }
   assert (Hr0 : drun_ok v0 run) by (destruct run as [rn|]; [apply run_ok_set_m; exact Hr|exact I]).
   assert (Hok0 : dop_ok v0 run o) by (destruct o; cbn in *; auto).
-  pose proof (dexec_MM c Hc Hmax Hlarge ms0 v0 run o I0 M0 Hr0 Hok0) as E.
+  pose proof (dexec_MM c Hc Hmax Hlarge ms0 v0 run o I0 M0 (VamGran.GR_set_m v _ HV) Hr0 Hok0) as E.
   destruct (dexec c v0 run o) as (((v1 & run1) & r) & dr).
   intros Hp Hs. destruct r as [[]|code| |]; cbn in Hp, Hs; try congruence; destruct E as (M & L);
     (split; [apply Hsub; [exact M|reflexivity]|exact L]).
@@ -426,7 +420,7 @@ Proof.
   - destruct (reachDA_inv c Ha v run R) as (HI & _).
     pose proof (step_preservesM c Ha v o f HI IH Hok Hd) as P. rewrite Hs in P. apply P; auto.
   - destruct (reachDA_inv c Ha v run R) as (HI & Hr).
-    pose proof (dstep_preservesM v run o f (va_s _ _ _ _ HI) IH Hr Hok) as P. rewrite Hs in P. apply P; auto.
+    pose proof (dstep_preservesM v run o f (va_s _ _ _ _ HI) IH (reachD_gv c Hc v run (reachDA_reachD c Ha v run R)) Hr Hok) as P. rewrite Hs in P. apply P; auto.
 Qed.
 
 (* C08 for the defragmentation calls *)
@@ -435,7 +429,7 @@ Theorem dstep_calls_valid v run o f v' run' r calls dr :
   replay (m_mems (v_m v)) calls (m_mems (v_m v')).
 Proof.
   intros R Hok Hs Hp Hk. destruct (reachDA_inv c Ha v run R) as (HI & Hr).
-  pose proof (dstep_preservesM v run o f (va_s _ _ _ _ HI) (reachDA_map v run R) Hr Hok) as P. rewrite Hs in P. apply P; auto.
+  pose proof (dstep_preservesM v run o f (va_s _ _ _ _ HI) (reachDA_map v run R) (reachD_gv c Hc v run (reachDA_reachD c Ha v run R)) Hr Hok) as P. rewrite Hs in P. apply P; auto.
 Qed.
 
 (* C14 after moves: device and SynchronizedMemory agree on every block *)
